@@ -42,6 +42,9 @@ def main(argv):
                                       chk.inventory["instantiated_functions"], chk.inventory["pattern_functions"],
                                       chk.inventory["records"], chk.inventory["vars"], fx.extract_s))
         mod.check(chk, fx)
+        if tier == "thorough" and not chk.violations and not os.environ.get("CTPGSA_EVIDENCE_DIR"):
+            from ctpgsa import selftest
+            selftest.run(chk, pid)
         facts.prune_cache()
 
     return core.run(pid, tier, body, LEVELS.get(pid, "other"))
